@@ -71,7 +71,8 @@ P2(k) == IF k <= 300 THEN P2Tab[k] ELSE Pow2(k)
 RECURSIVE BitLenFrom(_,_,_)
 BitLenFrom(m, lo, hi) ==      \* smallest k in lo..hi with m < 2^k   (m >= 0)
   IF lo = hi THEN lo ELSE LET mid == (lo + hi) \div 2 IN IF Lt(m, P2(mid)) THEN BitLenFrom(m, lo, mid) ELSE BitLenFrom(m, mid + 1, hi)
-BitLen(m0) == LET m == BAbs(m0) IN IF m = Zero THEN 0 ELSE BitLenFrom(m, 0, 14 * Len(m.l))
+BitLen(m0) == LET m == BAbs(m0)  nl == Len(m.l) IN
+  IF m = Zero THEN 0 ELSE BitLenFrom(m, (1328 * (nl - 1)) \div 100, (1329 * nl) \div 100 + 1)     \* 13.28(n-1) < bits <= 13.29n + 1
 
 IsFin(x) == x.cls \in {"fin", "zero"}
 SMant(x) == IF x.cls = "fin" THEN (IF x.s = 1 THEN Neg(FromWire(x.m)) ELSE FromWire(x.m)) ELSE Zero
